@@ -70,6 +70,7 @@ thread_local! {
     static CTX: RefCell<RunCtx> = RefCell::new(RunCtx::default());
     static LAST_YIELD: Cell<u8> = const { Cell::new(0) };
     static PANICKING_TASK: Cell<Option<usize>> = const { Cell::new(None) };
+    static SCHEDULED_TASK: Cell<Option<usize>> = const { Cell::new(None) };
     static LAST_PANIC: RefCell<Option<(String, String)>> = const { RefCell::new(None) };
 }
 
@@ -77,6 +78,7 @@ pub fn install(ctx: RunCtx) {
     CTX.with(|c| *c.borrow_mut() = ctx);
     LAST_YIELD.with(|c| c.set(0));
     PANICKING_TASK.with(|c| c.set(None));
+    SCHEDULED_TASK.with(|c| c.set(None));
     LAST_PANIC.with(|c| *c.borrow_mut() = None);
 }
 
@@ -103,6 +105,17 @@ pub fn current_seq() -> u64 {
 /// The kind of the scheduling point the current task reached last; reset to `Other` on read.
 pub fn take_last_yield() -> u8 {
     LAST_YIELD.with(|c| c.replace(0))
+}
+
+/// Called by the simulator's scheduler with every choice it makes, so that the panic hook knows
+/// the running task without asking shuttle (whose execution state may be borrowed when a panic is
+/// raised inside the scheduler or shuttle itself; asking then would abort the process).
+pub fn set_scheduled_task(t: Option<usize>) {
+    SCHEDULED_TASK.with(|c| c.set(t));
+}
+
+pub fn scheduled_task() -> Option<usize> {
+    SCHEDULED_TASK.with(|c| c.get())
 }
 
 pub fn panicking_task() -> Option<usize> {
@@ -208,8 +221,10 @@ pub fn install_panic_hook() {
             .location()
             .map(|l| format!("{}:{}", l.file(), l.line()))
             .unwrap_or_else(|| "<unknown>".to_string());
+        let task = scheduled_task();
+        let in_shuttle = loc.contains("/shuttle-") || loc.contains("rainsim/src/sched.rs");
         if verbose {
-            eprintln!("[rainsim] panic in task {:?}: {} at {}", shuttle::current::get_current_task(), msg, loc);
+            eprintln!("[rainsim] panic in task {:?}: {} at {}", task, msg, loc);
         }
         LAST_PANIC.with(|c| {
             let mut c = c.borrow_mut();
@@ -218,8 +233,10 @@ pub fn install_panic_hook() {
                 *c = Some((msg, loc));
             }
         });
-        if let Some(t) = shuttle::current::get_current_task() {
-            PANICKING_TASK.with(|c| c.set(Some(usize::from(t))));
+        // A panic raised by shuttle itself (deadlock, step bound) or by the scheduler is not a
+        // panic of the task that ran last.
+        if let (Some(t), false) = (task, in_shuttle) {
+            PANICKING_TASK.with(|c| c.set(Some(t)));
         }
     }));
 }
